@@ -1,9 +1,10 @@
 //! C07 — dictionary codec: exact bytes back or refusal, frequent strings cost 1 byte.  `DictionaryCodec::new_from`
 //! (sorting + B-tree inserts) cannot be encoded (DESIGN.md §1.2); decided here: one push/read step from any valid
-//! single-entry table state, generation 0 through the public API, and the heavy-hitter summary in isolation.
+//! single-entry table state and generation 0 through the public API.  (The heavy-hitter summary `MisraGries` in
+//! isolation was tried and dropped: five inserts with one compaction - `sort_by` on symbolic keys - exceed 1500 s.)
 use crate::gen::{same_bytes, Bytes};
 use crate::sym;
-use flatcontainer::impls::codec::{CodecRegion, DictionaryCodec, MisraGries};
+use flatcontainer::impls::codec::{CodecRegion, DictionaryCodec};
 use flatcontainer::{Push, Region};
 
 fn used<R: Region>(r: &R) -> usize {
@@ -126,37 +127,4 @@ pub fn c07_generation0_empty() {
     assert!(r.index(i1).is_empty(), "C07: the empty string does not read back empty");
     cover!(true, "end reached");
     sym::forget(r);
-}
-
-// @h prop=C07 tier=thorough kind=proof engine=both inst="MisraGries<u8>::with_capacity(2)" bounds="5 inserts over a symbolic 2-value domain (crosses the compaction at 4 buffered entries)" desc="no panic in tidy; reported counts never exceed true counts"
-#[cfg(feature = "thorough")]
-#[cfg_attr(kani, kani::proof, kani::unwind(8))]
-pub fn c07_misra_gries() {
-    let a = sym::u8();
-    let b = sym::u8();
-    let mut mg = MisraGries::<u8>::with_capacity(2);
-    let mut ca = 0usize;
-    let mut cb = 0usize;
-    let mut i = 0;
-    while i < 5 {
-        if sym::bool() {
-            mg.insert(a);
-            ca += 1;
-        } else {
-            mg.insert(b);
-            cb += 1;
-        }
-        i += 1;
-    }
-    let done = mg.done();
-    for (v, c) in done.iter() {
-        if *v == a && a != b {
-            assert!(*c <= ca, "C07: heavy-hitter count exceeds the true count");
-        }
-        if *v == b && a != b {
-            assert!(*c <= cb, "C07: heavy-hitter count exceeds the true count");
-        }
-    }
-    cover!(true, "end reached");
-    sym::forget(done);
 }
